@@ -30,8 +30,9 @@ def gen_duration_case(rng):
     mode = rng.choice(rp_common.MODES)
     c = rp_common.gen_case(rng, mode=mode)
     rows = c['rows']
-    B = [0, 1, 59, 60, 61, 99, 100, 3599, 3600, 3601, 35999, 36000, 359999, 360000, 86399, 86400, 2 ** 31 - 1, 2 ** 31, 2 ** 40 - 1, 2 ** 40]
-    D = [0, 1, -1, 59, -59, 60, -60, 61, -61, 3599, -3600, 2 ** 40, -(2 ** 40), 2 ** 40 - 1]
+    B = [0, 1, 59, 60, 61, 99, 100, 3599, 3600, 3601, 35999, 36000, 359999, 360000, 86399, 86400, 2 ** 31 - 1, 2 ** 31, 2 ** 32 - 1, 2 ** 32, 2 ** 40 - 1, 2 ** 40]
+    D = [0, 1, -1, 59, -59, 60, -60, 61, -61, 3599, -3600, 2 ** 40, -(2 ** 40), 2 ** 40 - 1, 2 ** 31 - 1, 2 ** 31, -(2 ** 31), -(2 ** 31) - 1, 2 ** 32, -(2 ** 32),
+         2 ** 32 + 60, 2 ** 32 + 61, -(2 ** 32 + 61)]
     for r in rows:
         if r['duration'] != -1 or rng.random() < 0.5:
             r['duration'] = rng.choice(B)
@@ -145,6 +146,9 @@ def gen_cases(rng, n):
         k = i % 3
         if i % 12 == 9:
             cases.append(gen_age_case(rng))
+        elif i % 12 == 5:
+            # the boundary size / shape classes of the numbers (rp_common: durations, deltas, sums, sizes, counts, invocation names)
+            cases.append(rp_common.boundary_case(rng, rp_common.FAMILIES_C18))
         elif k == 0:
             cases.append(rp_common.gen_case(rng, focus='sizes'))
         elif k == 1:
@@ -161,11 +165,16 @@ def run(ctx, n=None):
                 'one side only, CHANGELOG, numbered diffs and look-alikes, hidden files), a third rows with durations/deltas at 59/60/61 s, the '
                 'two-digit and int boundaries and 2^40, with and without an end row, a third the general C05 generator; one case in twelve has invocation names of the '
                 'tenth/eleventh build of a day, a name that is a prefix of another, or a reissued name, with the creation order recorded; the shell totals are run for '
-                'a sample of the cases; non-trivial = a report with a Size: line or a delta suffix; distinct by content hash')
+                'a sample of the cases; one case in twelve (and corpus/C18/b18_*.json, one family per file) comes from the boundary classes of rp_common '
+                '("class: ..." in the input distribution): durations / deltas / sums / wall times at 59..61, 3599..3601, 86399/86400, 2^31, 2^32, 2^63-1, sizes and size '
+                'differences at 2^31 / 2^32 / the K and M unit boundaries up to 2^43, 0..65 release files, the 1st..101st invocation of a day, 15..256 entries in '
+                'robsddir, prefix-related invocation names, names next to "end", names with blanks or shell syntax, 16..256 rows - duration_total runs on every one of '
+                'them; non-trivial = a report with a Size: line or a delta suffix; distinct by content hash')
     n = n or ctx.budget(330, 9000)
     cases = rp_common.load_corpus('C18') + gen_cases(ctx.rng, n)
     res.samples = [{'mode': c['mode'], 'rows': c['rows'][:2], 'rel': (c['rel'] or [])[:3]} for c in cases[:3]]
-    res.assumptions = ['durations 0..2^40 and deltas within +-2^40 judged by the oracle (in-flight -1 rows only compared with the model); sizes 0..5.5 GiB']
+    res.assumptions = ['durations 0..2^40 and deltas within +-2^40 judged by the oracle (in-flight -1 rows and larger values only compared with the model; no delta of -2^63: '
+                       'its negation is undefined in C); sizes 0..2^43 (ext4 refuses larger sparse files)']
     run_cases(ctx, cases, res, with_shell=ctx.budget(0.35, 0.08))
     res.traces_validated = res.evaluations
     return res
